@@ -41,8 +41,7 @@ theorem maprange_inventory_ok :
     Lean function) and its commit block is in canonical order when the deltas are sorted. -/
 theorem model_commit_canonical :
     Verif.Model.Exec.writesCanonical (Verif.Model.Exec.exec ⟨false, false⟩ .tx
-      { preCalls := 2, preOk := true, run := [.step, .read, .alloc], ok := true, commitPrefix := [.read],
-        acctWrites := [1, 2], slabWrites := [(1, 1), (1, 4), (2, 1)] }) = true := by decide
+      ⟨2, true, [.step, .read, .alloc], true, [.read], [1, 2], [(1, 1), (1, 4), (2, 1)]⟩) = true := by decide
 
 /-! Non-vacuity -/
 example : emitSorted [(2, "b"), (1, "a")] = emitSorted [(1, "a"), (2, "b")] :=
